@@ -28,7 +28,8 @@ RULE = (
   'output with StateAxes / int, None) x StateAxes encodings (dict, pairs, Not/All/Any/tuple '
   'filters, StateAxes(State), plain int/None prefix, scalar in_axes) x call forms (argument '
   'order, no array, two array arguments on different axes / broadcast, scan: no carry arg, '
-  'carry first / last / middle, whole-module Carry); VF/SF every ordered pair of overlapping '
+  'carry first / last / middle, whole-module Carry; C2: 2-3 Modules plus an array inside one Carry '
+  'pytree, 5 shapes x same/different structure x n x reverse); VF/SF every ordered pair of overlapping '
   'filters from an 11-filter alphabet (types, Param subclass, PathContains, Not, Any, All, '
   'tuple) + `...` x axis triples; V2/S2 two modules of equal shape with independent '
   'StateAxes as two arguments / dict / tuple argument; VA/SA aliasing: one Variable shared '
@@ -77,6 +78,7 @@ def units(tier, seed):
       us.append(dict(fam=fam, lo=i, hi=min(i + per, len(cs))))
   # heavy (scan) units first so the tail of the run is made of cheap units
   us.sort(key=lambda u: (-CS.weight(u['fam']), u['fam'], u['lo']))
+  us.append(dict(fam='C2'))      # several Modules inside one Carry pytree
   return us
 
 
@@ -100,9 +102,99 @@ def _cases(tier, fam):
   return _CASES[(tier, fam)]
 
 
+def _run_c2(res):
+  """nnx.scan whose Carry argument is a pytree holding several Modules (and arrays): after the
+  scan every ORIGINAL object is in the state the Python loop leaves it in, the returned carry
+  holds the same objects at the same positions, and the stacked outputs match. Carry shapes x
+  same / different module structure x length x reverse."""
+  import numpy as np
+  L = M.lazy()
+  nnx, jnp = L['nnx'], L['jnp']
+
+  class Acc(nnx.Module):
+    def __init__(self, v, extra=False):
+      self.total = nnx.Variable(jnp.asarray(float(v)))
+      if extra:
+        self.aux = nnx.BatchStat(jnp.asarray(float(v) * 10))
+
+  def step(carry_mods, h, x):
+    # every module is updated differently (position-dependent)
+    for i, m in enumerate(carry_mods):
+      m.total.value = m.total.value * (i + 2) + x * (1 if i % 2 == 0 else -1)
+      if hasattr(m, 'aux'):
+        m.aux.value = m.aux.value + x + i
+    h = h + x
+    return h, sum(m.total.value for m in carry_mods) + h
+
+  FORMS = {
+    'tuple2': (lambda ms, h: (ms[0], ms[1], h), lambda c: ([c[0], c[1]], c[2]), 2),
+    'list3': (lambda ms, h: [ms[0], h, ms[1], ms[2]], lambda c: ([c[0], c[2], c[3]], c[1]), 3),
+    'dict2': (lambda ms, h: {'a': ms[0], 'h': h, 'b': ms[1]}, lambda c: ([c['a'], c['b']], c['h']), 2),
+    'nested': (lambda ms, h: (ms[0], (h, ms[1])), lambda c: ([c[0], c[1][1]], c[1][0]), 2),
+    'rev-tuple': (lambda ms, h: (ms[1], h, ms[0]), lambda c: ([c[2], c[0]], c[1]), 2),
+  }
+  for fname, (pack, unpack, k) in FORMS.items():
+    for hetero in (False, True):
+      for n in (1, 2, 3):
+        for reverse in (False, True):
+          key = f'C2|{fname}|hetero={hetero}|n={n}|rev={reverse}'
+          case = dict(form=fname, hetero=hetero, n=n, reverse=reverse)
+          mk = lambda: [Acc(i + 1, extra=(hetero and i % 2 == 1)) for i in range(k)]
+          xs = jnp.arange(1, n + 1, dtype=jnp.float32)
+          # eager loop
+          ms_ref = mk()
+          h = jnp.asarray(0.5)
+          ys = []
+          for i in (range(n - 1, -1, -1) if reverse else range(n)):
+            h, y = step(ms_ref, h, xs[i])
+            ys.append((i, y))
+          ys_ref = np.asarray([y for _, y in sorted(ys)])
+          # scan
+          ms = mk()
+          c0 = pack(ms, jnp.asarray(0.5))
+
+          def body(c, x):
+            mods, hh = unpack(c)
+            hh, y = step(mods, hh, x)
+            # rebuild the carry in the same shape with the same objects
+            return pack(mods, hh), y
+
+          res['evals'] += 1
+          res['transitions'] += 1
+          try:
+            c_out, ys_out = nnx.scan(body, in_axes=(nnx.Carry, 0), out_axes=(nnx.Carry, 0),
+                                     reverse=reverse)(c0, xs)
+          except Exception as e:  # noqa
+            core.violation(res, 'C2-raises|' + key, f'{type(e).__name__}: {e}'[:300], case)
+            continue
+          mods_out, h_out = unpack(c_out)
+          for i, (m, mr) in enumerate(zip(ms, ms_ref)):
+            got = {a: float(getattr(m, a).value) for a in ('total', 'aux') if hasattr(m, a)}
+            exp = {a: float(getattr(mr, a).value) for a in ('total', 'aux') if hasattr(mr, a)}
+            if got != exp:
+              core.violation(res, f'C2-state|{key}|m{i}',
+                             f'module {i} of the Carry is not in the state the loop leaves it in',
+                             case, observed=got, expected=exp)
+          if any(a is not b for a, b in zip(mods_out, ms)):
+            core.violation(res, 'C2-identity|' + key,
+                           'the returned carry does not hold the input objects at their positions',
+                           case)
+          if float(h_out) != float(h) or not np.array_equal(np.asarray(ys_out), ys_ref):
+            core.violation(res, 'C2-out|' + key, 'array part of the carry / stacked outputs differ '
+                           'from the loop', case, observed=np.asarray(ys_out).tolist(),
+                           expected=ys_ref.tolist())
+          core.outcome(res, 'C2:ok')
+          res['nontrivial'].append(core.h(key))
+  res['samples'].append(dict(fam='C2', forms=sorted(FORMS)))
+
+
 def run_unit(unit):
   from mc.models import c08_run as R
   res = core.new_result()
+  if unit['fam'] == 'C2':
+    _run_c2(res)
+    M.lazy()['jax'].clear_caches()
+    return res
   tier = os.environ.get('VERIF_TIER', 'quick')
   seed = int(os.environ.get('VERIF_SEED', '0'))
   cs = _cases(tier, unit['fam'])[unit['lo']:unit['hi']]
